@@ -1645,12 +1645,13 @@ fn own_fn(o: &Opd, key: &str) -> Option<(usize, Beh)> {
     let m = o.top_meta()?;
     match m.get(key)? {
         MV::Fn(b) => Some((m.tag, *b)),
+        MV::Native(v) => Some((m.tag, Beh::Ret(*v))), // documented: dispatched to like a Koto function
         _ => None,
     }
 }
 /// the key is present but not as a plain function (non-callable value / callable-map chain)
 fn odd_entry(o: &Opd, key: &str) -> bool {
-    o.top_meta().and_then(|m| m.get(key)).is_some_and(|mv| !matches!(mv, MV::Fn(_)))
+    o.top_meta().and_then(|m| m.get(key)).is_some_and(|mv| !matches!(mv, MV::Fn(_) | MV::Native(_)))
 }
 fn host_beh(o: &Opd, m: &str) -> Option<Beh> {
     match o {
@@ -2030,8 +2031,56 @@ impl Ctx {
         json!({"input": script, "request": req, "case": serde_json::to_value(c).unwrap(), "impl": imp, "model": model})
     }
 
+    /// The listed (open) finding whose documented cause is present in this case, if any. Used for
+    /// (D) failures, (K) disagreements and panics alike; a case without such a cause is never attributed.
+    fn known_cause(&self, c: &Case, trace: &[String]) -> Option<String> {
+        let open = |id: &str| self.open.iter().any(|x| x == id);
+        let entry = |k: &str| c.a.top_meta().and_then(|m| m.get(k));
+        let native = |k: &str| matches!(entry(k), Some(MV::Native(_)));
+        // F-C17-3: packed call arguments on a map with @call (unpacked twice in call_callable)
+        if c.op == Op::CallPacked && entry("Call").is_some() && open("F-C17-3") {
+            return Some("F-C17-3".into());
+        }
+        // F-C17-4: KotoVm::run_write_op(IndexAssign) hands (container, container, index) to run_index_assign
+        if matches!(c.op, Op::ApiIndexAssign(_)) && open("F-C17-4") {
+            return Some("F-C17-4".into());
+        }
+        // F-C17-5: a native function under a metakey at one of the three sites that assume a pushed frame:
+        // call_metamap_arithmetic_op! (left operand's own arithmetic entry), run_overridden_comparison_op
+        // (derived comparisons through @< / @==), the @next arm of run_iterator_next
+        let native_site = match &c.op {
+            Op::Arith(i) => native(ARITH[*i].2),
+            Op::Cmp(j) => {
+                entry(CMP[*j].2).is_none()
+                    && match *j {
+                        1 | 2 => entry("Less").is_some() && entry("Equal").is_some() && (native("Less") || native("Equal")),
+                        3 => native("Less"),
+                        5 => native("Equal"),
+                        _ => false,
+                    }
+            }
+            Op::For | Op::ToList => native("Next"),
+            _ => false,
+        };
+        if native_site && open("F-C17-5") {
+            return Some("F-C17-5".into());
+        }
+        // F-C17-6: trailing position of unpacking / match on a map object: @index gets the raw -1
+        if c.op == Op::MatchLast && matches!(c.a, Opd::Map(_)) && trace.iter().any(|e| e.contains(".Index ") && e.ends_with("args=[i-1]")) && open("F-C17-6") {
+            return Some("F-C17-6".into());
+        }
+        // F-C17-7: entries written after `@access_assign` in the same literal go through that function
+        if c.op == Op::Literal && entry("AccessAssign").is_some() && matches!(&c.a, Opd::Map(ls) if !ls[0].data.is_empty()) && open("F-C17-7") {
+            return Some("F-C17-7".into());
+        }
+        None
+    }
+
     /// attribute a (D) failure to a listed finding by its cause, or None
     fn attribute(&self, c: &Case, rule: &str, o: &Outcome, _other: Option<&Outcome>) -> Option<String> {
+        if let Some(id) = self.known_cause(c, &o.trace) {
+            return Some(id);
+        }
         // F-C17-1: compound assignment, both operands host objects and different instances: the
         // callee received a *copy* of the right operand (guard `o2.is_same_instance(o2)`)
         if rule == "operand_order" {
@@ -2093,6 +2142,11 @@ impl Ctx {
         let o = match run_case(c, &script) {
             Ok(o) => o,
             Err(p) => {
+                if let Some(id) = self.known_cause(c, &[]) {
+                    *self.known_counts.entry(id).or_insert(0) += 1;
+                    self.rep.bump("result=panic(attributed)");
+                    return;
+                }
                 self.d_fail += 1;
                 if self.d_fail <= 6 {
                     let mut d = self.detail(c, req, &script, "", model);
@@ -2183,6 +2237,12 @@ impl Ctx {
         }
         // (K)
         if !model_matches(model, &imp) {
+            if let Some(id) = self.known_cause(c, &o.trace) {
+                // the disagreement has the documented cause of a listed finding (the model states the
+                // documented behaviour for these shapes)
+                *self.known_counts.entry(id).or_insert(0) += 1;
+                return;
+            }
             self.k_fail += 1;
             if self.k_fail <= 6 && !d_failed {
                 let mut d = self.detail(c, req, &script, &imp, model);
@@ -2540,6 +2600,89 @@ fn gen_derived_grid(cx: &mut Ctx) {
     }
 }
 
+fn native_rv(key: &str) -> RV {
+    match key {
+        "Less" | "LessOrEqual" | "Greater" | "GreaterOrEqual" | "Equal" | "NotEqual" => RV::Bool(true),
+        "Next" | "NextBack" => RV::Null,
+        "Display" | "Debug" => RV::Str,
+        "Size" => RV::Int(2),
+        "Iterator" => RV::Tup,
+        _ => RV::Int(300),
+    }
+}
+
+/// native functions as values of every metakey × every operation; packed calls; the host write API;
+/// trailing positions in `match`; literals with data entries after the metakeys
+fn gen_wave2_grid(cx: &mut Ctx) {
+    let num = |v: usize| Opd::Prim(v, PrimK::Num);
+    let unary_ops = [
+        Op::Neg, Op::Not, Op::Size, Op::Call, Op::CallPacked, Op::For, Op::ToList, Op::Reversed, Op::Type, Op::Display,
+        Op::DisplayNested, Op::Debug, Op::Index(true), Op::IndexAssign(true), Op::ApiIndexAssign(true),
+        Op::ApiIndexAssign(false), Op::Access(0), Op::Method(2), Op::AccessAssign(1),
+    ];
+    for key in ALL_OP_KEYS.iter() {
+        let a = obj(0, &[0], &[(key, MV::Native(native_rv(key)))]);
+        for op in unary_ops.iter() {
+            cx.push(Case { op: op.clone(), a: a.clone(), b: None });
+        }
+        let r = obj(10, &[0], &[(key, MV::Native(native_rv(key)))]);
+        for i in 0..6 {
+            cx.push(Case { op: Op::Arith(i), a: a.clone(), b: Some(num(10)) });
+            cx.push(Case { op: Op::Arith(i), a: num(0), b: Some(r.clone()) });
+            cx.push(Case { op: Op::Compound(i, false), a: a.clone(), b: Some(num(10)) });
+            cx.push(Case { op: Op::Cmp(i), a: a.clone(), b: Some(num(10)) });
+        }
+    }
+    // derived comparisons through native @< / @==
+    for (lt, eq) in [(false, false), (false, true), (true, false), (true, true)] {
+        for (nl, ne) in [(true, true), (true, false), (false, true)] {
+            let l = if nl { MV::Native(RV::Bool(lt)) } else { f(Beh::Ret(RV::Bool(lt))) };
+            let e = if ne { MV::Native(RV::Bool(eq)) } else { f(Beh::Ret(RV::Bool(eq))) };
+            let a = obj(0, &[], &[("Less", l), ("Equal", e)]);
+            for i in 0..6 {
+                cx.push(Case { op: Op::Cmp(i), a: a.clone(), b: Some(num(10)) });
+            }
+        }
+    }
+    // packed call / API write on every kind of operand
+    let mut opds = vec![plain(0, &[0]), obj(0, &[0], &[]), host(0, &[]), host(0, &[("call", RI), ("index_assign", RI)]), Opd::Prim(0, PrimK::Fn), Opd::Prim(0, PrimK::List), num(0)];
+    for b in [RI, Beh::Ret(RV::SelfV), Beh::Unimpl, Beh::Throw] {
+        opds.push(obj(0, &[0], &[("Call", f(b)), ("IndexAssign", f(b))]));
+    }
+    opds.push(obj(0, &[], &[("Call", MV::Chain(vec![20, 21], Some(RI))), ("IndexAssign", MV::Chain(vec![22], Some(RI)))]));
+    opds.push(obj(0, &[], &[("Call", MV::NonCallable), ("IndexAssign", MV::NonCallable)]));
+    for a in &opds {
+        for op in [Op::CallPacked, Op::Call, Op::ApiIndexAssign(true), Op::ApiIndexAssign(false), Op::IndexAssign(true)] {
+            cx.push(Case { op, a: a.clone(), b: None });
+        }
+    }
+    // trailing position: map objects with @size / @index
+    for n in 1..=3i64 {
+        for ib in [f(RI), f(Beh::Ret(RV::Str)), f(Beh::Ret(RV::Null)), f(Beh::Ret(RV::SelfV)), f(Beh::Throw), f(Beh::Unimpl), MV::Native(RV::Int(300))] {
+            let a = obj(0, &[0, 1], &[("Size", f(Beh::Ret(RV::Int(n)))), ("Index", ib.clone())]);
+            cx.push(Case { op: Op::MatchLast, a, b: None });
+        }
+    }
+    // literals: data entries after the metakeys
+    for aa in [None, Some(f(RI)), Some(f(Beh::Throw)), Some(f(Beh::Unimpl)), Some(MV::Native(RV::Null)), Some(MV::NonCallable)] {
+        for data in [vec![0usize], vec![0, 1], vec![1, 2, 3]] {
+            for extra in [None, Some("Access"), Some("Add"), Some("Index")] {
+                let mut ops: Vec<(&str, MV)> = vec![];
+                if let Some(mv) = &aa {
+                    ops.push(("AccessAssign", mv.clone()));
+                }
+                if let Some(k) = extra {
+                    ops.push((k, f(RI)));
+                }
+                if ops.is_empty() {
+                    ops.push(("Negate", f(RI)));
+                }
+                cx.push(Case { op: Op::Literal, a: obj(0, &data, &ops), b: None });
+            }
+        }
+    }
+}
+
 /// access chains: every placement of the key in data / `@meta` along chains of depth 0..=max_depth
 fn gen_access_grid(cx: &mut Ctx, max_depth: usize) {
     for depth in 0..=max_depth {
@@ -2683,6 +2826,9 @@ fn rand_beh(rng: &mut Rng, key: &str, n: i64) -> Beh {
 
 fn rand_mv(rng: &mut Rng, key: &str, n: i64, chain_base: usize) -> MV {
     let r = rng.below(100);
+    if r >= 96 {
+        return MV::Native(native_rv(key));
+    }
     if r < 4 {
         MV::NonCallable
     } else if r < 9 {
@@ -2810,7 +2956,7 @@ fn rand_opd(rng: &mut Rng, base_name: usize, focus: &[&str], host_focus: &[&str]
 
 fn gen_random(cx: &mut Ctx, rng: &mut Rng, n: usize) {
     for _ in 0..n {
-        let which = rng.weighted(&[30, 12, 22, 3, 1, 3, 3, 4, 3, 2, 3, 2, 2, 3, 2, 6, 3, 2, 3]);
+        let which = rng.weighted(&[30, 12, 22, 3, 1, 3, 3, 4, 3, 2, 3, 2, 2, 3, 2, 6, 3, 2, 3, 2, 2]);
         let i6 = rng.below(6);
         let key = rng.below(5);
         let (op, focus_a, focus_b, hf_a, hf_b): (Op, Vec<&str>, Vec<&str>, Vec<String>, Vec<String>) = match which {
@@ -2832,7 +2978,9 @@ fn gen_random(cx: &mut Ctx, rng: &mut Rng, n: usize) {
             15 => (Op::Access(key), vec![], vec![], vec!["access".into()], vec![]),
             16 => (Op::Method(key.min(2)), vec![], vec![], vec!["access".into()], vec![]),
             17 => (Op::AccessAssign(key.min(2)), vec!["AccessAssign"], vec![], vec!["access_assign".into()], vec![]),
-            _ => (Op::Reversed, vec!["Iterator", "Next", "NextBack"], vec![], vec![], vec![]),
+            18 => (Op::Reversed, vec!["Iterator", "Next", "NextBack"], vec![], vec![], vec![]),
+            19 => (Op::CallPacked, vec!["Call"], vec![], vec!["call".into()], vec![]),
+            _ => (Op::ApiIndexAssign(rng.chance(2, 3)), vec!["IndexAssign"], vec![], vec!["index_assign".into()], vec![]),
         };
         let hfa: Vec<&str> = hf_a.iter().map(|s| s.as_str()).collect();
         let hfb: Vec<&str> = hf_b.iter().map(|s| s.as_str()).collect();
@@ -2932,6 +3080,7 @@ fn main() {
     gen_cmp_grid(&mut cx, thorough);
     gen_unary_grid(&mut cx);
     gen_derived_grid(&mut cx);
+    gen_wave2_grid(&mut cx);
     gen_access_grid(&mut cx, if thorough { 4 } else { 3 });
     cx.flush();
     // 2. seeded random cases
@@ -2945,7 +3094,8 @@ fn main() {
         let failing = match run_case(w, &script) {
             Err(_) => true,
             Ok(o) => {
-                let mut bad = !d_check(w, &o).is_empty();
+                let model = cx.drv.ask(&w.request());
+                let mut bad = !d_check(w, &o).is_empty() || !model_matches(&model, &o.canon());
                 if w.op == Op::For {
                     let c2 = Case { op: Op::ToList, a: w.a.clone(), b: None };
                     if let Ok(o2) = run_case(&c2, &render(&c2)) {
